@@ -445,13 +445,23 @@ def safe_index(c: WC) -> int:
 
 
 class Peel(_Settings, CartesianProductStrategy):
-    SETTINGS = ("atom_last", "xf_atom", "xf_rest")
+    """C(sr) = {s} x C(r); with split=True and |s| >= 2 the removed front is cut
+    into two atoms, C(s1 s2 r) = {s1} x {s2} x C(r) (a product with three factors)."""
 
-    def __init__(self, atom_last=False, xf_atom="id", xf_rest="id", **kw):
+    SETTINGS = ("atom_last", "xf_atom", "xf_rest", "split")
+
+    def __init__(self, atom_last=False, xf_atom="id", xf_rest="id", split=False, **kw):
         self.atom_last = bool(atom_last)
         self.xf_atom = xf_atom
         self.xf_rest = xf_rest
+        self.split = bool(split)
         super().__init__(**kw)
+
+    def _fronts(self, c: WC, safe: int):
+        front = c.prefix[:safe]
+        if self.split and safe >= 2:
+            return [front[:1], front[1:]]
+        return [front]
 
     def _split(self, c: WC):
         if c.just_prefix or c.is_empty():
@@ -465,9 +475,12 @@ class Peel(_Settings, CartesianProductStrategy):
         safe = self._split(c)
         if safe is None:
             return None
-        atom = transform(c.derive(prefix=c.prefix[:safe], just_prefix=True, strict=False), FLAGSETS[self.xf_atom])
+        atoms = [
+            transform(c.derive(prefix=f, just_prefix=True, strict=False), FLAGSETS[self.xf_atom])
+            for f in self._fronts(c, safe)
+        ]
         rest = transform(c.derive(prefix=c.prefix[safe:]), FLAGSETS[self.xf_rest])
-        return [rest, atom] if self.atom_last else [atom, rest]
+        return [rest] + atoms if self.atom_last else atoms + [rest]
 
     def decomposition_function(self, c: WC):
         cm = self._children_and_maps(c)
@@ -486,14 +499,15 @@ class Peel(_Settings, CartesianProductStrategy):
 
     def forward_map(self, comb_class, obj, children=None):
         safe = self._split(comb_class)
-        a, r = W(obj[:safe]), W(obj[safe:])
-        return (r, a) if self.atom_last else (a, r)
+        fronts = [W(f) for f in self._fronts(comb_class, safe)]
+        r = W(obj[safe:])
+        return tuple([r] + fronts) if self.atom_last else tuple(fronts + [r])
 
     def backward_map(self, comb_class, objs, children=None):
         if self.atom_last:
-            yield W(objs[1] + objs[0])
+            yield W("".join(objs[1:]) + objs[0])
         else:
-            yield W(objs[0] + objs[1])
+            yield W("".join(objs))
 
     def __str__(self):
         return self.formal_step()
@@ -915,11 +929,12 @@ class PackVer(_Settings, VerificationStrategy):
     """Verifies non-atom classes with prefix length >= minlen and offers a pack
     (terms/objects/genf come through the default get_specification path)."""
 
-    SETTINGS = ("minlen", "xf")
+    SETTINGS = ("minlen", "xf", "nest")
 
-    def __init__(self, minlen=1, xf="id", ignore_parent=False):
+    def __init__(self, minlen=1, xf="id", nest=0, ignore_parent=False):
         self.minlen = int(minlen)
         self.xf = xf
+        self.nest = int(nest)  # the offered pack itself verifies longer prefixes with a pack
         super().__init__(ignore_parent=ignore_parent)
 
     def verified(self, c: WC) -> bool:
@@ -928,7 +943,12 @@ class PackVer(_Settings, VerificationStrategy):
     def pack(self, c: WC) -> StrategyPack:
         if not self.verified(c):
             raise InvalidOperationError("not verified")
-        return basic_pack(self.xf, name=f"packver{self.minlen}")
+        pack = basic_pack(self.xf, name=f"packver{self.minlen}")
+        if self.nest > 0:
+            pack = pack.add_verification(
+                PackVer(minlen=self.minlen + 1, xf=self.xf, nest=self.nest - 1), apply_first=True
+            )
+        return pack
 
     def formal_step(self) -> str:
         return f"verified with a pack (prefix length >= {self.minlen})"
